@@ -14,6 +14,10 @@ from vf import core, gen, pipe, symx
 ID = "C08"
 
 
+def _up(col):
+    return col.astype(str).str.upper() if hasattr(col, "astype") else np.array([str(v).upper() for v in col])
+
+
 def _less(x, by):
     return x - by
 
@@ -25,6 +29,7 @@ def formulas(tier):
         "f ~ x", "g[t] ~ x + f", "y ~ I(x * z) + binary(f, 'a')", "y ~ x + offset(z)", "y ~ I(x * 2)", "y ~ binary(f, 'a')",
         "y ~ less(x, by=z)", "y ~ center(x=z) + f",  # data columns passed by keyword
         "1", "1 + offset(2)",  # nothing is taken from the frame
+        "y ~ x + (1|up(g))", "y ~ up(f):x", "y ~ I(binary(f, 'a') * x)", "y ~ I(B(f, 'a') * center(x)) + g",  # calls used as factors; helpers inside python expressions
     ]
     if tier != "quick":
         f += ["y ~ x*f*g", "y ~ standardize(z):g", "y ~ (x + z|g) + (1|f)", "y ~ T(g, 't') + S(f)", "y ~ h + x:h", "y ~ scale(center(x))", "y ~ (scale(x)|g)", "y ~ C(k, levels=lv):x"]
@@ -137,7 +142,7 @@ def harness(env, case):
     if df.shape[1] == 0:
         df = pd.DataFrame({"unused0": [1.5] * 5})  # a formula without variables: the frame only says how many rows there are
     n = len(df)
-    ns = {"lv": [2, 3, 1], "less": _less}
+    ns = {"lv": [2, 3, 1], "less": _less, "up": _up}
     if "z" in df:
         ns["z"] = np.array(list(df["z"].values), dtype=object if env.mode == "sym" else float)  # a same-named object of the caller (rows in the ORIGINAL order): the column wins
     kind, arg = tr.split(":")
